@@ -87,6 +87,7 @@ Grid helpers (indices are the no_network server numbers 0..num_servers-1)
     g.storage_broker_order(cap_or_si) -> server indices in permuted order
     g.logged_errors -> twisted log.err events seen while the grid existed
     g.close()   (also at context exit: stops services, removes scratch dir)
+    Grids may be nested, but schedules are reproducible only with one live grid at a time.
 
 Self-test:  /venv/bin/python harness/core/grid.py --selftest
 """
@@ -478,6 +479,7 @@ def _install_patch():
 # grid
 # ---------------------------------------------------------------------------
 _grid_counter = [0]
+_live = set()
 _keypairs = {}
 _fixture = []
 
@@ -509,7 +511,9 @@ class Grid(object):
         self.warped = []
         self._warps = 0
         _grid_counter[0] += 1
-        _hash_counter[0] = 0
+        if not _live:
+            _hash_counter[0] = 0
+        _live.add(id(self))
         if basedir is None:
             basedir = os.path.join(env.subdir("grids"), "g%d-%d" % (os.getpid(), _grid_counter[0]))
         assert not os.path.realpath(basedir).startswith(os.path.realpath(env.REPO) + os.sep), "no scratch in the repo"
@@ -982,12 +986,15 @@ class Grid(object):
             while not box and time.monotonic() < t_end:
                 T["reactor"].iterate(0.001)
             self.pump()
-            # cancel what this grid left on the reactor (overdue timers, bucket-writer timeouts)
-            for dc in T["reactor"].getDelayedCalls():
-                try:
-                    dc.cancel()
-                except Exception:
-                    pass
+            # cancel what this grid left on the reactor (overdue timers, bucket-writer
+            # timeouts) -- unless another grid is still alive (nested use)
+            _live.discard(id(self))
+            if not _live:
+                for dc in T["reactor"].getDelayedCalls():
+                    try:
+                        dc.cancel()
+                    except Exception:
+                        pass
         finally:
             for c in reversed(self._cleanups):
                 try:
